@@ -139,7 +139,12 @@ void Exec::note(const std::string &s) {
 
 void Exec::on_dispatch(int ci, DBusConnection *conn, DBusMessage *msg) {
   (void)conn;
+  // the previous event is complete now: read what it left open before anything else changes
+  resolve_choices();
   if (ci < 0) return;
+  // unique names clients have learnt so far (from their own Hello replies)
+  for (auto &cl : w.clients)
+    if (!cl.unique.empty() && (size_t)cl.idx < md.uniq.size() && md.uniq[(size_t)cl.idx].empty()) md.uniq[(size_t)cl.idx] = cl.unique;
   if (dbus_message_is_signal(msg, "org.freedesktop.DBus.Local", "Disconnected")) {
     tr.ev("H2 c%d disconnected", ci);
     md.now_us = K->now_us;
